@@ -42,8 +42,27 @@ def build(seed: int):
         base = (vlib.REPO / "test/resources/test-chkjson-scx.chk").read_bytes()
     else:
         base = SC.MapGen(random.Random(seed * 7 + 1), "editor", nloc=255, all_sections=(seed % 2 == 0)).build()
+    dup_name = None
+    if seed % 2 == 1:
+        # two (three) of the map's own switches share one name - legal, and what "resolve a by-name reference to the
+        # existing switch of that name" stumbles over
+        v0 = SC.SpecView(base)
+        named = [k for k in range(256) if v0.swnm and v0.swnm[k] and v0.text(v0.swnm[k])]
+        if len(named) >= 3:
+            a, b, c = named[0], named[len(named) // 2], named[-1]
+            chunks = []
+            for n_, p_ in SC.chunks_of(base):
+                if n_ == b"SWNM" and len(p_) == 1024:
+                    sid = p_[4 * a:4 * a + 4]
+                    p_ = p_[:4 * b] + sid + p_[4 * b + 4:]
+                    p_ = p_[:4 * c] + sid + p_[4 * c + 4:]
+                chunks.append((n_, p_))
+            base = b"".join(n_ + len(p_).to_bytes(4, "little") + p_ for n_, p_ in chunks)
+            dup_name = v0.text(v0.swnm[a])
     rich = SC.load(base)
     nl, ns, nc = rng.choice([1, 2, 5, 9]), rng.choice([0, 2, 4]), rng.choice([0, 1, 3, 6])
+    if dup_name:
+        ns = max(ns, 2)
     locs = [RichLocation(10 * i, 20 * i, 10 * i + 5, 20 * i + 7,
                          RichString(f"newloc{i}") if i % 2 else RichNullString()) for i in range(1, nl + 1)]
     if rng.random() < 0.6:
@@ -61,6 +80,8 @@ def build(seed: int):
                  for s_ in sct.switches if s_.custom_name.value]
         if named:
             sws[rng.randrange(len(sws))] = RichSwitch(_custom_name=RichString(sorted(named)[rng.randrange(len(named))]))
+    if sws and dup_name:
+        sws[0] = RichSwitch(_custom_name=RichString(dup_name))     # referred to by the shared name only
     cws = [RichCuwpSlot(10 + i, 20 + i, 30 + i, _resource_amount=i, _cloaked=bool(i % 2)) for i in range(nc)]
     units = [UnitId.TERRAN_MARINE, UnitId.ZERG_ZERGLING, UnitId.PROTOSS_ZEALOT]
     trigs = []
@@ -69,7 +90,7 @@ def build(seed: int):
         conds.append(BringCondition(_group=PlayerId.PLAYER_1, _comparator=NumericComparator.AT_LEAST, _amount=t,
                                     _unit=rng.choice(units), _location=rng.choice(locs)))
         if sws:
-            conds.append(SwitchCondition(_switch_state=SwitchState.SET, _switch=rng.choice(sws)))
+            conds.append(SwitchCondition(_switch_state=SwitchState.SET, _switch=sws[0] if (dup_name and t == 0) else rng.choice(sws)))
         for _ in range(rng.choice([1, 3, 8])):
             m = rng.random()
             if m < 0.3 and cws:
